@@ -1,32 +1,112 @@
+"""C03 / C04 / C14 share one set of obligations (three facets of the hand-over protocol); PROP selects the id reported."""
 from .common import *
+import subprocess, json, hashlib, re, os
+from vlib import BrokenCheck
 
-def pipe_obs(r, tier, prefix='', canon=()):
-    canon = list(canon)
-    T = 600 if tier == 'quick' else 3600
-    u = U_kern_pipe(1)
-    ureal = U_kern('kern', buf=1)
-    cfgs = []
-    # (threads, data length in bytes, encrypt side?, K)
+FACET = {
+    'C03': 'output independent of scheduling; each block transformed exactly once, by its stream, in order, written at its place',
+    'C04': 'no deadlock / lost wake-up; every thread finishes within the bound on every schedule',
+    'C14': 'buffers handed over exclusively: worker touches only its own READY buffer, I/O thread only EMPTY/UPDATING ones',
+}
+
+def model_cfgs(tier):
+    # (threads, blocks per chunk, full chunks, blocks in final chunk, K, spurious wake-ups, solver, timeout)
     if tier == 'quick':
-        cfgs = [(1, 0, 1, 60), (1, 16, 1, 70), (1, 20, 1, 70), (1, 16, 0, 60), (1, 32, 0, 70), (2, 0, 1, 70), (2, 15, 1, 70), (2, 16, 0, 70)]
-    else:
-        cfgs = [(1, n, 1, 90) for n in (0, 5, 15, 16, 17, 31, 32, 33)] + [(1, n, 0, 90) for n in (16, 32, 48)] + \
-               [(2, n, 1, 110) for n in (0, 15, 16, 17, 32)] + [(2, n, 0, 110) for n in (16, 32, 48)] + [(3, 16, 1, 120), (3, 32, 0, 120)]
-    for th, n, enc, k in cfgs:
-        r.add(Ob('%ssched-T%d-%s-len%d' % (prefix, th, 'enc' if enc else 'dec', n), 'h_pipe.c', [u],
-                 defines=['THREADS=%d' % th, 'DLEN=%d' % n, 'ENC=%d' % enc, 'K=%d' % k] + PIPE_DEFS + canon, unwind=k + 40, timeout=T, mem_gb=24, envs=PIPE_ENVS,
-                 solver='cadical', replay='none', cbmc_extra=['--max-field-sensitivity-array-size', '256'],
-                 note='all interleavings of %d worker(s) + I/O thread at lock/wait/unlock/shared-access granularity, chunk = 16 bytes' % th))
-    return cfgs
+        return [(1, 1, 0, 1, 40, 0, 'cadical', 300), (1, 1, 1, 1, 56, 0, 'cadical', 300), (1, 2, 1, 1, 60, 0, 'cadical', 300), (2, 1, 0, 1, 60, 0, 'cadical', 600), (1, 1, 0, 1, 48, 2, 'cadical', 300)]
+    return [(1, 1, 0, 1, 40, 0, 'cadical', 900), (1, 1, 1, 1, 56, 0, 'cadical', 900), (1, 1, 2, 1, 72, 0, 'cadical', 1800), (1, 2, 1, 2, 64, 0, 'cadical', 1800), (1, 1, 1, 1, 66, 2, 'cadical', 1800),
+            (2, 1, 0, 1, 60, 0, 'cadical', 1800), (2, 1, 0, 1, 68, 2, 'cadical', 3600), (2, 2, 0, 2, 64, 0, 'cadical', 3600), (2, 1, 1, 1, 80, 0, 'kissat', 7200), (3, 1, 0, 1, 80, 0, 'kissat', 7200)]
 
-def run(tier):
-    r = Run('C03', tier)
-    cfgs = pipe_obs(r, tier)
-    r.bounds = ['configurations (T, input bytes, side, schedule bound K): %s; chunk size override BUF_SZ=1 block; every schedule of length <= K (K checked sufficient by an assertion)' % cfgs]
-    r.outside = ['larger T / more chunks', 'weak-memory effects (sequential consistency assumed)', 'production chunk size']
-    r.assumptions = ['cipher replaced by a marker (C09/C10 decide the cipher)', 'std::mutex/condition_variable/thread semantics per env/env_sched.c', 'spurious wake-ups only in the thorough tier']
-    r.run_all(jobs=8)
+def canon_cfgs(tier):
+    if tier == 'quick':
+        return [(1, 0, 1, 80), (1, 20, 1, 100), (2, 15, 1, 100), (2, 40, 1, 170), (1, 16, 0, 80), (2, 32, 0, 130), (3, 40, 1, 170)]
+    return [(th, n, 1, 120 + 3 * n) for th in (1, 2, 3) for n in (0, 1, 15, 16, 17, 31, 32, 33, 47, 48, 64)] + [(th, n, 0, 120 + 3 * n) for th in (1, 2, 3) for n in (16, 32, 48, 64)]
+
+def native_schedule_search(r, th, nfull, lastblk, bsz, seeds):
+    """confirmation / replay on the REAL code: the real thread bodies as step functions (protocol unit), run natively under `seeds`
+    pseudo-random schedules with the same monitor and ghost checks; returns (seed, message) of the first failing schedule or None"""
+    u = U_proto(bsz)
+    c, m = r.b.translate(u)
+    d = r.ws.path('nsearch_T%d_%d_%d_%d' % (th, nfull, lastblk, bsz))
+    os.makedirs(d, exist_ok=True)
+    exe = os.path.join(d, 'search')
+    envs = [os.path.join(VERIF, 'env', e) for e in ('env_heap.c', 'env_cxx.c', 'env_io.c', 'env_sched_proto.c')]
+    cmd = ['gcc', '-std=gnu11', '-w', '-O1', '-I' + os.path.join(VERIF, 'engine'), '-I' + os.path.join(VERIF, 'env'), '-I' + os.path.join(VERIF, 'harness'),
+           '-DMODEL_NATIVE', '-DSCHED_RANDOM', '-DTHREADS=%d' % th, '-DNFULL=%d' % nfull, '-DLASTBLK=%d' % lastblk, '-DBSZ=%d' % bsz, '-DK=4000',
+           '-DIR2C_ACCESS(p,n,w)=rs_access((u8*)(p),(u64)(n),(w))', '-DRS_MAX_THREADS=4', c] + envs + [os.path.join(VERIF, 'harness', 'h_proto.c'), '-lm', '-o', exe]
+    rr = subprocess.run(cmd, stdout=subprocess.PIPE, stderr=subprocess.PIPE, text=True)
+    if rr.returncode != 0:
+        raise BrokenCheck('native schedule search build failed: ' + rr.stderr[-1500:])
+    for seed in range(1, seeds + 1):
+        try:
+            p = subprocess.run([exe, str(seed)], stdout=subprocess.PIPE, stderr=subprocess.PIPE, text=True, timeout=20)
+            out = p.stdout + p.stderr
+            if 'REPLAY-PASS' not in p.stdout:
+                mm = re.search(r'REPLAY-FAIL: (.*)', out)
+                return seed, (mm.group(1) if mm else 'exit %s: %s' % (p.returncode, out[-200:]))
+        except subprocess.TimeoutExpired:
+            return seed, 'hang (no termination within 20 s)'
+    return None
+
+def run(tier, prop='C03'):
+    r = Run(prop, tier)
+    T = 600 if tier == 'quick' else 3600
+    # (1) the real synchronisation code refines the protocol model
+    refinement_obligations(r, tier)
+    # (2) every schedule of the model
+    for th, bsz, nfull, last, k, sp, solver, to in model_cfgs(tier):
+        r.add(Ob('model-all-schedules-T%d-chunk%dblk-%dfull+%d-K%d%s' % (th, bsz, nfull, last, k, '-spurious' if sp else ''), 'h_model.c', [],
+                 defines=['THREADS=%d' % th, 'BSZ=%d' % bsz, 'NFULL=%d' % nfull, 'LASTBLK=%d' % last, 'K=%d' % k, 'SPURIOUS=%d' % sp], unwind=k + 5, timeout=to, mem_gb=24,
+                 envs=[], solver=solver, replay='none', note='symbolic schedule vector of length K over T+1 threads; K proven sufficient by the final assertion'))
+    # (3) the complete real code (threads as step functions, real load/export on the FILE model, marker cipher) under the canonical schedule, monitor on
+    u = U_kern_pipe(1)
+    for th, n, enc, k in canon_cfgs(tier):
+        r.add(Ob('realcode-canonical-T%d-%s-len%d' % (th, 'enc' if enc else 'dec', n), 'h_pipe.c', [u], defines=['THREADS=%d' % th, 'DLEN=%d' % n, 'ENC=%d' % enc, 'K=%d' % k, 'SCHED_CANON'] + PIPE_DEFS,
+                 unwind=k + 40, timeout=T, mem_gb=24, envs=PIPE_ENVS, replay='none', cbmc_extra=FS, note='one schedule (run until blocked), all input contents symbolic'))
+    r.run_all(jobs=10)
+    # (4) confirmation on the real step functions for anything that failed in (1) or (2); also a standing differential validation of the model
+    bad = [o for o in r.obs if o.status == 'CEX' and (o.name.startswith('refine-') or o.name.startswith('model-'))]
+    nseeds = 300 if tier == 'quick' else 3000
+    searches = []
+    try:
+        for (th, nfull, last, bsz) in ((2, 1, 1, 1), (2, 0, 1, 1), (1, 1, 1, 1), (3, 2, 1, 1), (2, 2, 2, 2)):
+            hit = native_schedule_search(r, th, nfull, last, bsz, nseeds if (bad or tier != 'quick') else 100)
+            searches.append(dict(threads=th, full_chunks=nfull, last_blocks=last, chunk_blocks=bsz, schedules=nseeds if (bad or tier != 'quick') else 100, failing=hit))
+            if hit:
+                break
+    except BrokenCheck as e:
+        r.notes.append('native schedule search unavailable: %s' % e)
+        hit = None
+    r.extra_cov['real_code_random_schedules'] = searches
+    hits = [s for s in searches if s['failing']]
+    for o in bad:
+        o.replay = 'native'
+        if hits:
+            s = hits[0]
+            o.replay_result = 'REPRODUCED (real thread bodies as step functions, T=%d, %d full chunks, pseudo-random schedule seed %d: %s)' % (s['threads'], s['full_chunks'], s['failing'][0], s['failing'][1])
+            rp = os.path.join(VERIF, 'replay'); os.makedirs(rp, exist_ok=True)
+            o.replay_path = os.path.join(rp, '%s-%s.json' % (prop, hashlib.sha1(o.name.encode()).hexdigest()[:10]))
+            json.dump(dict(property=prop, obligation=o.name, kind='schedule-search', config=s, failed=o.failed_props[:4]), open(o.replay_path, 'w'), indent=1)
+        else:
+            o.replay_result = 'NOT-REPRODUCED (protocol differs from harness/model_proto.h but no violating schedule among the real-code schedules tried)'
+    if hits and not bad:
+        # the real code fails under some schedule although every obligation passed: the model or the refinement argument is wrong -> broken check
+        r.notes.append('INCONSISTENT: real-code schedule search fails while all obligations hold')
+        print('BROKEN check %s: real-code schedule search found a failure that the obligations did not: %s' % (prop, hits[0]))
+        r.finish()
+        return 2
+    mcs = model_cfgs(tier)
+    r.bounds = ['refinement: arbitrary states / arbitrary leaf outcomes, T in %s' % ('{2,3}' if tier == 'quick' else '{1,2,3,4}'),
+                'model, ALL schedules: (T, blocks/chunk, full chunks, final blocks, K, spurious) in %s' % [c[:6] for c in mcs],
+                'real code, canonical schedule: (T, bytes, encrypt?, K) in %s' % canon_cfgs(tier)]
+    r.outside = ['full symbolic interleavings over the untranslated-to-model real code: CBMC returns no verdict within 900 s / 11 GB even for T=1 (DESIGN 4.3); the decomposition real code == model (solver) + model under all schedules (solver) is used instead',
+                 'T > 3, more chunks than listed, weak-memory effects (sequential consistency; unsynchronised cmpstate/haslive reads are treated as atomic reads)']
+    r.assumptions = ['facet decided: ' + FACET[prop], 'critical sections are atomic w.r.t. each other (justified by L1: state/live_num only touched under the buffer mutex, blocking only in condition_variable::wait)',
+                     'load contract: FULL^n then FINAL with at least one block (decided on the real load_buffer by the end-to-end obligations of C01)', 'cipher = marker']
     return r.finish()
 
 def replay(rp):
-    return 0
+    r = Run(rp['property'], 'replay')
+    s = rp['config']
+    hit = native_schedule_search(r, s['threads'], s['full_chunks'], s['last_blocks'], s['chunk_blocks'], max(s['failing'][0], 1) if s.get('failing') else 300)
+    print('schedule search:', hit)
+    return 1 if hit else 0
